@@ -21,7 +21,17 @@ type c07Case struct {
 	Begin  int       `json:"begin"` // -1000 = absent
 	End    int       `json:"end"`
 	Sorted bool      `json:"sorted"`
+	// Clock: the date format has a clock component ("2006/01/02 15:04"); record i is dated day S.Days[i] at minute Mins[i],
+	// the period bounds are instants too
+	Clock    bool  `json:"clock,omitempty"`
+	Mins     []int `json:"mins,omitempty"`
+	BeginMin int   `json:"beginmin,omitempty"`
+	EndMin   int   `json:"endmin,omitempty"`
 }
+
+const c07ClockLayout = "2006/01/02 15:04"
+
+func c07Instant(day, min int) string { return fmt.Sprintf("%s %02d:%02d", vFmtDay(day, ""), min/60, min%60) }
 
 const c07Absent = -1000
 
@@ -55,17 +65,48 @@ var vCent = big.NewRat(1, 100)
 func isoToSlash(s string) string { return strings.ReplaceAll(s, "-", "/") }
 
 func checkC07(c c07Case, ctx *vCtx) *vFailure {
+	if c.Clock {
+		if len(c.Mins) != len(c.S.Log.Recs) || len(c.S.Days) != len(c.S.Log.Recs) {
+			vFault("C07 clock mode: %d records, %d days, %d minutes", len(c.S.Log.Recs), len(c.S.Days), len(c.Mins))
+		}
+		recs := append([]vRec{}, c.S.Log.Recs...)
+		for i := range recs {
+			recs[i].Head = c07Instant(c.S.Days[i], c.Mins[i])
+		}
+		c.S.Log.Recs = recs
+		ctx.Label("clock-format")
+	}
 	f := c.S.Write("c07")
 	exact := c.S.Exact
 	var period []string
 	if c.Begin != c07Absent {
-		period = append(period, "-b", vFmtDay(c.Begin, ""))
+		if c.Clock {
+			period = append(period, "-b", c07Instant(c.Begin, c.BeginMin))
+		} else {
+			period = append(period, "-b", vFmtDay(c.Begin, ""))
+		}
 	}
 	if c.End != c07Absent {
-		period = append(period, "-e", vFmtDay(c.End, ""))
+		if c.Clock {
+			period = append(period, "-e", c07Instant(c.End, c.EndMin))
+		} else {
+			period = append(period, "-e", vFmtDay(c.End, ""))
+		}
+	}
+	fileArgs := func(args ...string) []string {
+		if c.Clock {
+			return append([]string{"--date-format", c07ClockLayout, "--today", vToday + " 00:00", "-d", f.Book, "-l", f.Log}, args...)
+		}
+		return f.Args(args...)
+	}
+	dayOf := func(s string) string { // the calendar date of a printed date
+		if c.Clock && len(s) >= 10 {
+			return s[:10]
+		}
+		return s
 	}
 	run := func(args ...string) vRun {
-		all := append(append([]string{"--no-color"}, period...), f.Args(args...)...)
+		all := append(append([]string{"--no-color"}, period...), fileArgs(args...)...)
 		r := vRunApp(vInvocation{Args: all})
 		ctx.Run(1)
 		if r.Failed {
@@ -256,8 +297,8 @@ func checkC07(c c07Case, ctx *vCtx) *vFailure {
 			ctx.Label("R5")
 		}
 	}
-	// R6: summary D = the day-D blocks of reg
-	{
+	// R6: summary D = the day-D blocks of reg (date-only formats: with a clock component the argument is an instant)
+	if !c.Clock {
 		seen := map[string]bool{}
 		for _, d := range regDays {
 			if seen[d.Date] {
@@ -323,7 +364,7 @@ func checkC07(c c07Case, ctx *vCtx) *vFailure {
 		}
 	}
 	// R8: stats
-	if len(c.S.Log.Recs) > 0 {
+	if len(c.S.Log.Recs) > 0 && !c.Clock {
 		st := vReadStats(run("stats").Stdout)
 		pr := vReadPrint(vRunApp(vInvocation{Args: f.Args("print")}).Stdout)
 		ctx.Run(1)
@@ -372,7 +413,7 @@ func checkC07(c c07Case, ctx *vCtx) *vFailure {
 			}
 			for i, w := range want {
 				g := rows[i]
-				if g.Date != isoToSlash(w[0]) || g.Name != w[1] || vRatAbs(vRatSub(vNum(g.Val), vNum(w[2]))).Cmp(big.NewRat(55, 10000)) > 0 {
+				if dayOf(g.Date) != isoToSlash(w[0]) || g.Name != w[1] || vRatAbs(vRatSub(vNum(g.Val), vNum(w[2]))).Cmp(big.NewRat(55, 10000)) > 0 {
 					return vFailf("R9: reg -f %q row %d = %v, csv log row = %v", lit, i, g, w)
 				}
 			}
@@ -422,7 +463,7 @@ func checkC07(c c07Case, ctx *vCtx) *vFailure {
 				}
 				r := csvLog[i]
 				i++
-				if isoToSlash(r[0]) != d.Date || r[1] != fd.Name || vRatAbs(vRatSub(vNum(fd.Val), vNum(r[2]))).Cmp(big.NewRat(55, 10000)) > 0 {
+				if isoToSlash(r[0]) != dayOf(d.Date) || r[1] != fd.Name || vRatAbs(vRatSub(vNum(fd.Val), vNum(r[2]))).Cmp(big.NewRat(55, 10000)) > 0 {
 					return vFailf("R11: reg food row (%s, %q, %s) differs from csv log row %v", d.Date, fd.Name, fd.Val, r)
 				}
 			}
@@ -433,6 +474,21 @@ func checkC07(c c07Case, ctx *vCtx) *vFailure {
 		if i > 0 {
 			ctx.Label("R11")
 		}
+	}
+	// R12: a food pattern that matches every food changes nothing in the single-element reports
+	// (whichever of the two selections has priority, "." selects every food)
+	if X != "" {
+		for _, extra := range [][]string{{"reg", "-s", X, "-f", "."}, {"reg", "-f", ".", "-s", X, "-g"}} {
+			base := []string{"reg", "-s", X}
+			if extra[len(extra)-1] == "-g" {
+				base = append(base, "-g")
+			}
+			a, b := run(base...).Stdout, run(extra...).Stdout
+			if a != b {
+				return vFailf("R12: %v and %v print different reports although \".\" matches every food:\n%s\nversus\n%s", base, extra, vTrunc(a, 600), vTrunc(b, 600))
+			}
+		}
+		ctx.Label("R12")
 	}
 	return nil
 }
@@ -490,6 +546,20 @@ func genC07(t *rapid.T) c07Case {
 		if rapid.Bool().Draw(t, "hase") {
 			c.End = rapid.IntRange(0, 7).Draw(t, "e")
 		}
+	}
+	if rapid.IntRange(0, 4).Draw(t, "clock") == 0 {
+		// a date format with a clock component: several records of one calendar day at different times, bounds inside a day
+		minute := func(label string) int {
+			if rapid.Bool().Draw(t, label+".edge") {
+				return []int{0, 1, 719, 720, 1438, 1439}[rapid.IntRange(0, 5).Draw(t, label+".e")]
+			}
+			return rapid.IntRange(0, 1439).Draw(t, label+".m")
+		}
+		c.Clock = true
+		for i := range c.S.Log.Recs {
+			c.Mins = append(c.Mins, minute(fmt.Sprintf("min%d", i)))
+		}
+		c.BeginMin, c.EndMin = minute("bmin"), minute("emin")
 	}
 	return c
 }
